@@ -57,6 +57,20 @@ def gen_case(rng, spec):
             pool += [["v", float(rng.choice([-300, -400, -710]))]]
     else:  # Entropy / Expectation: (p, r)
         pool = [["v", [q(0, 7, (8, 16)), q()]] for _ in range(n)]
+    # scores that every type sees (state shared between weight types would collide on them), and extreme magnitudes
+    common_vals = [Fr(-1, 2), Fr(1, 4), Fr(1, 2)]
+    if t == "Real":
+        pool += [["v", rng.choice(common_vals)], ["v", rng.choice([Fr(1, 2**50), Fr(1, 10**15), Fr(2**50), Fr(-1, 2**40)])]]
+    elif t == "Float":
+        pool += [["v", float(rng.choice(common_vals))], ["v", rng.choice([2.0**-50, 1e-15, 2.0**50, -(2.0**-40)])]]
+    elif t == "MaxTimes":
+        pool += [["v", rng.choice([Fr(1, 4), Fr(1, 2)])], ["v", rng.choice([Fr(1, 2**50), Fr(1, 10**15), Fr(2**50)])]]
+    elif t == "MaxPlus":
+        pool += [["v", rng.choice(common_vals)], ["v", rng.choice([Fr(-10**6), Fr(10**6), Fr(1, 2**40)])]]
+    elif t == "Log":
+        pool += [["v", float(rng.choice([-0.5, 0.25, 0.5]))]]
+    elif t in ("Entropy", "Expectation"):
+        pool += [["v", [rng.choice([Fr(1, 4), Fr(1, 2)]), rng.choice(common_vals)]], ["v", [Fr(1, 2**40), Fr(2**30)]], ["v", [Fr(0), Fr(3, 4)]]]
     pool += [["const", "zero"], ["const", "one"], ["fresh", "zero"], ["fresh", "one"]]
     return {"type": t, "pool": pool}
 
